@@ -642,6 +642,79 @@ func leafSources(v ssa.Value) []string {
 	return out
 }
 
+// leafSourcesThroughHelpers is leafSources, but a leaf that is result #k of a call to an unexported package function
+// (not a closure) is replaced by what that function can return at #k, with the function's parameters substituted by
+// the call's arguments (one level). `resp, ok := c.decodeResponse(line)` then has the sources of decodeResponse's own
+// returns: decodeSASLResponse(<line>)#0 and nil.
+func leafSourcesThroughHelpers(v ssa.Value, stop func(desc string) bool) []string {
+	seen := map[ssa.Value]bool{}
+	set := map[string]bool{}
+	var walk func(v ssa.Value)
+	walk = func(v ssa.Value) {
+		v = stripConvKeepIface(v)
+		if seen[v] {
+			return
+		}
+		seen[v] = true
+		if d := singleDef(v); d != nil {
+			walk(d)
+			return
+		}
+		if phi, ok := v.(*ssa.Phi); ok {
+			for _, e := range phi.Edges {
+				walk(e)
+			}
+			return
+		}
+		var call *ssa.Call
+		idx := 0
+		switch x := v.(type) {
+		case *ssa.Extract:
+			call, _ = x.Tuple.(*ssa.Call)
+			idx = x.Index
+		case *ssa.Call:
+			call = x
+		}
+		if call != nil && (stop == nil || !stop(describe(v))) {
+			if g := staticCallee(&call.Call); g != nil && inSmtp(g) && !isExported(g) && g.Parent() == nil && len(g.Blocks) > 0 {
+				expanded := false
+				allInstrs(g, func(in ssa.Instruction) {
+					r, ok := in.(*ssa.Return)
+					if !ok || in.Block() == g.Recover {
+						return
+					}
+					rv := returnedValues(r)
+					if idx >= len(rv) {
+						return
+					}
+					for _, l := range leafSources(rv[idx]) {
+						// substitute the callee's parameters by the arguments (longest names first: param10 before param1)
+						for i := len(call.Call.Args) - 1; i >= 0; i-- {
+							l = strings.ReplaceAll(l, fmt.Sprintf("param%d", i), "\x00"+fmt.Sprint(i)+"\x00")
+						}
+						for i := len(call.Call.Args) - 1; i >= 0; i-- {
+							l = strings.ReplaceAll(l, "\x00"+fmt.Sprint(i)+"\x00", describe(call.Call.Args[i]))
+						}
+						set[l] = true
+						expanded = true
+					}
+				})
+				if expanded {
+					return
+				}
+			}
+		}
+		set[describe(v)] = true
+	}
+	walk(v)
+	var out []string
+	for k := range set {
+		out = append(out, k)
+	}
+	sort.Strings(out)
+	return out
+}
+
 func stripConvKeepIface(v ssa.Value) ssa.Value {
 	for {
 		switch x := v.(type) {
